@@ -56,6 +56,146 @@ theorem run_user (client : Bool) (s : St) (ops : List Op) :
     simp only [run, specRun]
     rw [ih, step_user]
 
+/-- a `finish` that did not time out returned no earlier than it started -/
+theorem finish_ge (start armed : Nat) (env : Option Nat) {t : Nat} {b : Bool} (h : finish start armed env = .at t b) : start ≤ t := by
+  unfold finish at h
+  cases env with
+  | none =>
+    simp only at h
+    split at h
+    · cases h
+    · cases h; omega
+  | some e =>
+    simp only at h
+    split at h
+    · cases h; omega
+    · split at h <;> (cases h; omega)
+
+/-- what one `writeChunk` does to the state -/
+theorem step_write (client : Bool) (s : St) (start : Nat) (env : Option Nat) :
+    (step client s (.write start env true)).2 = finish start s.wd env ∧
+    (step client s (.write start env true)).1.rd = s.rd ∧ (step client s (.write start env true)).1.wd = s.wd ∧
+    (∀ t b, (step client s (.write start env true)).2 = .at t b → client = true →
+      (step client s (.write start env true)).1.resp = t + respTimeout) := by
+  simp only [step]
+  cases hf : finish start s.wd env with
+  | unit => exact ⟨rfl, rfl, rfl, fun _ _ h => by cases h⟩
+  | never => exact ⟨rfl, rfl, rfl, fun _ _ h => by cases h⟩
+  | «at» t b =>
+    refine ⟨rfl, ?_, ?_, ?_⟩
+    · simp only; split <;> rfl
+    · simp only; split <;> rfl
+    · intro t' b' h hc
+      simp only at h ⊢
+      cases h
+      simp [hc]
+
+theorem step_read (client : Bool) (s : St) (start : Nat) (env : Option Nat) :
+    (step client s (.read start env)).2 = finish start (armedRead s) env ∧
+    (step client s (.read start env)).1.rd = s.rd ∧ (step client s (.read start env)).1.wd = s.wd ∧
+    (step client s (.read start env)).1.resp = 0 := ⟨rfl, rfl, rfl, rfl⟩
+
+/-- a multi-chunk `Write` under write deadline `d ≠ 0` is over by `max start d`, leaves the user's deadlines
+    alone, and (on a client, when every chunk went through) arms the implicit response deadline 10 s after
+    the return of the last chunk -/
+theorem writeChunks_spec (client : Bool) (s : St) (start : Nat) (envs : List (Option Nat)) :
+    (s.wd ≠ 0 → boundedBy start s.wd (writeChunks client s start envs).2) ∧
+    (writeChunks client s start envs).1.rd = s.rd ∧ (writeChunks client s start envs).1.wd = s.wd ∧
+    (∀ t, client = true → envs ≠ [] → (writeChunks client s start envs).2 = .at t false →
+      (writeChunks client s start envs).1.resp = t + respTimeout) := by
+  induction envs generalizing s start with
+  | nil =>
+    refine ⟨?_, rfl, rfl, fun _ _ h => (h rfl).elim⟩
+    intro _
+    simp only [writeChunks, boundedBy]
+    omega
+  | cons env rest ih =>
+    obtain ⟨w1, w2, w3, w4⟩ := step_write client s start env
+    unfold writeChunks
+    generalize hp : step client s (.write start env true) = p at w1 w2 w3 w4
+    obtain ⟨s', r⟩ := p
+    simp only at w1 w2 w3 w4 ⊢
+    cases r with
+    | unit =>
+      refine ⟨?_, w2, w3, fun _ _ _ h => by cases h⟩
+      intro hw
+      have := finish_bounded start s.wd env hw
+      rw [← w1] at this; exact this
+    | never =>
+      refine ⟨?_, w2, w3, fun _ _ _ h => by cases h⟩
+      intro hw
+      have := finish_bounded start s.wd env hw
+      rw [← w1] at this; exact this
+    | «at» t b =>
+      cases b with
+      | true =>
+        refine ⟨?_, w2, w3, fun _ _ _ h => by cases h⟩
+        intro hw
+        have := finish_bounded start s.wd env hw
+        rw [← w1] at this; exact this
+      | false =>
+        obtain ⟨i1, i2, i3, i4⟩ := ih s' t
+        refine ⟨?_, by rw [i2, w2], by rw [i3, w3], ?_⟩
+        · intro hw
+          have hb := finish_bounded start s.wd env hw
+          rw [← w1] at hb
+          simp only [boundedBy] at hb
+          have h2 := i1 (by rw [w3]; exact hw)
+          rw [w3] at h2
+          revert h2
+          cases (writeChunks client s' t rest).2 with
+          | unit => exact id
+          | never => exact id
+          | «at» t' b' => simp only [boundedBy]; omega
+        · intro t' hc _ hr
+          cases rest with
+          | nil =>
+            simp only [writeChunks] at hr ⊢
+            cases hr
+            exact w4 _ false rfl hc
+          | cons e2 r2 => exact i4 t' hc (by simp) hr
+
+/-- `Read`s back to back under read deadline `d ≠ 0` are over by `max start d`; the user's deadlines stay -/
+theorem readLoop_spec (client : Bool) (s : St) (start : Nat) (envs : List (Option Nat)) :
+    (s.rd ≠ 0 → boundedBy start s.rd (readLoop client s start envs).2) ∧
+    (readLoop client s start envs).1.rd = s.rd ∧ (readLoop client s start envs).1.wd = s.wd := by
+  induction envs generalizing s start with
+  | nil =>
+    refine ⟨?_, rfl, rfl⟩
+    intro _
+    simp only [readLoop, boundedBy]
+    omega
+  | cons env rest ih =>
+    obtain ⟨w1, w2, w3, _⟩ := step_read client s start env
+    unfold readLoop
+    generalize hp : step client s (.read start env) = p at w1 w2 w3
+    obtain ⟨s', r⟩ := p
+    simp only at w1 w2 w3 ⊢
+    have first : s.rd ≠ 0 → boundedBy start s.rd r := by
+      intro hr
+      have hm := minNZ_le (b := s.resp) hr
+      rw [w1]
+      exact bounded_mono hm.2 (finish_bounded start _ env hm.1)
+    cases r with
+    | unit => exact ⟨first, w2, w3⟩
+    | never => exact ⟨first, w2, w3⟩
+    | «at» t b =>
+      cases b with
+      | true => exact ⟨first, w2, w3⟩
+      | false =>
+        obtain ⟨i1, i2, i3⟩ := ih s' t
+        refine ⟨?_, by rw [i2, w2], by rw [i3, w3]⟩
+        intro hr
+        have hb := first hr
+        simp only [boundedBy] at hb
+        have h2 := i1 (by rw [w2]; exact hr)
+        rw [w2] at h2
+        revert h2
+        cases (readLoop client s' t rest).2 with
+        | unit => exact id
+        | never => exact id
+        | «at» t' b' => simp only [boundedBy]; omega
+
 theorem okWith_bound {tol : Tol} {armed d : Nat} {o : Obs} (hd : d ≠ 0) (ha : armed ≠ 0) (hle : armed ≤ d)
     (h : okWith tol armed o = true) : o.ret ≤ max o.start d + tol.slack := by
   unfold okWith at h
